@@ -59,6 +59,11 @@ CASES = {
         {MAIN: "PUSH1 0x04 CALLDATALOAD PUSH0 MSTORE PUSH1 0x20 PUSH0 SHA3 DUP1 PUSH1 0x24 CALLDATALOAD PUSH1 0x01 ADD SWAP1 ADD LT "
                f"PUSH @ovf JUMPI PUSH1 0x01 PUSH0 MSTORE {RET} ovf: PUSH1 0x02 PUSH0 MSTORE PUSH1 0x20 PUSH0 REVERT"},
         2, False, {}, ["C01", "C02"]),
+    # zero-length input to the hash / modexp precompiles (outside the reference model: only "no internal exception
+    # escapes" is checked for these)
+    "precompile-empty-input": (
+        {MAIN: " ".join(f"PUSH1 0x20 PUSH0 PUSH0 PUSH0 PUSH0 PUSH1 {a} GAS CALL POP" for a in (2, 3, 5)) + f" {RET}"},
+        0, False, {}, ["C01"]),
     "call-revert-rolls-back": (
         {MAIN: f"PUSH1 0x05 PUSH1 0x01 SSTORE PUSH1 0x20 PUSH1 0x40 PUSH0 PUSH0 PUSH1 0x03 PUSH2 0x2000 PUSH2 0xffff CALL PUSH0 MSTORE PUSH1 0x40 MLOAD PUSH1 0x20 MSTORE PUSH2 0x2000 BALANCE PUSH1 0x60 MSTORE PUSH1 0x01 SLOAD PUSH1 0x80 MSTORE {RET}",
          0x2000: "PUSH1 0x09 PUSH1 0x01 SSTORE CALLVALUE PUSH0 MSTORE PUSH1 0x20 PUSH0 REVERT"}, 1, False, {}, ["C09", "C01"]),
